@@ -1303,6 +1303,12 @@ std::vector<Op> randomHistory(Ctx& c, Rng& r)
         else
         {
             o.kind = 3;
+            if (r.chance(1, 15))
+            {
+                o.kind = 6;
+                h.push_back(o);
+                continue;
+            }
             if (c10 && r.chance(1, 12))
             {
                 o.batch = genBatch(r, 6, false, true);
@@ -1439,6 +1445,19 @@ void runHistory(Ctx& c, const std::vector<Op>& h, Rng& r)
             sawReset = true;
             hsig = mix64(hsig, static_cast<uint64_t>(o.kind));
             prevOp = o.kind;
+            continue;
+        }
+        if (o.kind == 6)
+        {
+            // continue on a copy of the encoder (copy-construct, then copy-assign back): configuration and counter are part of its value
+            Encoder copy(enc);
+            Encoder other;
+            other.setDeviceId(static_cast<uint16_t>(~dev));
+            other = copy;
+            enc = other;
+            log += "continue-on-copy; ";
+            c.count("encoder_copies");
+            prevOp = 6;
             continue;
         }
         if (o.kind == 4 || o.kind == 5)
